@@ -52,44 +52,65 @@ Definition set_pst_none (s : S) : S :=
       (r_lod0 s) (r_lod1 s) (r_csel s) (r_nsel s) (r_disabled s) 0 (r_psx s) (r_psy s) (r_paint s)
       (r_creg s) (r_nreg s) (z_penx s) (z_peny s) (z_firstx s) (z_firsty s) (r_log s).
 
+(* Steps 1-3 of the endpoint-to-centre conversion (render.go:470-520), written once over an abstract
+   numeric type: float64 instance below (compared with the Go code), R instance in proofs/ArcR.v. *)
+Record arcops (T : Type) := mkArcOps {
+  a_add : T -> T -> T; a_sub : T -> T -> T; a_mul : T -> T -> T; a_div : T -> T -> T; a_neg : T -> T;
+  a_sqrt : T -> T; a_gt : T -> T -> bool; a_zero : T; a_one : T; a_two : T
+}.
+Arguments a_add {T}. Arguments a_sub {T}. Arguments a_mul {T}. Arguments a_div {T}. Arguments a_neg {T}.
+Arguments a_sqrt {T}. Arguments a_gt {T}. Arguments a_zero {T}. Arguments a_one {T}. Arguments a_two {T}.
+
+Record arccenter (T : Type) := mkCenter {
+  ac_rx : T; ac_ry : T; ac_cx : T; ac_cy : T; ac_x1p : T; ac_y1p : T; ac_cxp : T; ac_cyp : T
+}.
+Arguments ac_rx {T}. Arguments ac_ry {T}. Arguments ac_cx {T}. Arguments ac_cy {T}.
+Arguments ac_x1p {T}. Arguments ac_y1p {T}. Arguments ac_cxp {T}. Arguments ac_cyp {T}.
+
+Definition arc_center_gen {T} (O : arcops T) (x1 y1 x2 y2 Rx Ry cosphi sinphi : T) (same : bool) : arccenter T :=
+    let hdx := a_div O (a_sub O x1 x2) (a_two O) in
+    let hdy := a_div O (a_sub O y1 y2) (a_two O) in
+    let x1p := a_add O (a_mul O cosphi hdx) (a_mul O sinphi hdy) in
+    let y1p := a_add O (a_mul O (a_neg O sinphi) hdx) (a_mul O cosphi hdy) in
+    let rxsq := a_mul O Rx Rx in
+    let rysq := a_mul O Ry Ry in
+    let x1psq := a_mul O x1p x1p in
+    let y1psq := a_mul O y1p y1p in
+    let check := a_add O (a_div O x1psq rxsq) (a_div O y1psq rysq) in
+    let '(Rx, Ry, rxsq, rysq) :=
+      if a_gt O check (a_one O) then
+        let c := a_sqrt O check in
+        let Rx' := a_mul O Rx c in let Ry' := a_mul O Ry c in
+        (Rx', Ry', a_mul O Rx' Rx', a_mul O Ry' Ry')
+      else (Rx, Ry, rxsq, rysq) in
+    let denom := a_add O (a_mul O rxsq y1psq) (a_mul O rysq x1psq) in
+    let a := a_sub O (a_div O (a_mul O rxsq rysq) denom) (a_one O) in
+    let step2 := if a_gt O a (a_zero O) then a_sqrt O a else a_zero O in
+    let step2 := if same then a_neg O step2 else step2 in
+    let cxp := a_div O (a_mul O (a_mul O step2 Rx) y1p) Ry in
+    let cyp := a_div O (a_mul O (a_mul O (a_neg O step2) Ry) x1p) Rx in
+    let cx := a_add O (a_sub O (a_mul O cosphi cxp) (a_mul O sinphi cyp)) (a_div O (a_add O x1 x2) (a_two O)) in
+    let cy := a_add O (a_add O (a_mul O sinphi cxp) (a_mul O cosphi cyp)) (a_div O (a_add O y1 y2) (a_two O)) in
+    mkCenter T Rx Ry cx cy x1p y1p cxp cyp.
+
+Definition A64 : arcops Z := mkArcOps Z dadd dsub dmul ddiv dneg (fsqrt F64) (fgt F64) d0 k_one k_two.
+
 (* the centre parameterisation of AbsArcTo: a pure function of the pen (in viewBox space) and the arguments.
    Returns (n, cx, cy, theta1, deltaTheta, Rx, Ry, cosPhi, sinPhi). *)
 Record arcp := mkArcP { ap_n : Z; ap_cx : Z; ap_cy : Z; ap_t1 : Z; ap_dt : Z; ap_rx : Z; ap_ry : Z; ap_cos : Z; ap_sin : Z }.
 
 Definition arc_params (x1 y1 : Z) (Rx0 Ry0 : Z) (rot : f32) (large sweep : bool) (x y : f32) : arcp :=
-    let Rx := Rx0 in let Ry := Ry0 in
     let x2 := to64 x in
     let y2 := to64 y in
     let phi := dmul k_twopi (to64 rot) in
-    let hdx := ddiv (dsub x1 x2) k_two in
-    let hdy := ddiv (dsub y1 y2) k_two in
     let cosphi := gocos phi in
     let sinphi := gosin phi in
-    let x1p := dadd (dmul cosphi hdx) (dmul sinphi hdy) in
-    let y1p := dadd (dmul (dneg sinphi) hdx) (dmul cosphi hdy) in
-    let rxsq := dmul Rx Rx in
-    let rysq := dmul Ry Ry in
-    let x1psq := dmul x1p x1p in
-    let y1psq := dmul y1p y1p in
-    let check := dadd (ddiv x1psq rxsq) (ddiv y1psq rysq) in
-    let '(Rx, Ry, rxsq, rysq) :=
-      if fgt F64 check k_one then
-        let c := fsqrt F64 check in
-        let Rx' := dmul Rx c in let Ry' := dmul Ry c in
-        (Rx', Ry', dmul Rx' Rx', dmul Ry' Ry')
-      else (Rx, Ry, rxsq, rysq) in
-    let denom := dadd (dmul rxsq y1psq) (dmul rysq x1psq) in
-    let a := dsub (ddiv (dmul rxsq rysq) denom) k_one in
-    let step2 := if fgt F64 a d0 then fsqrt F64 a else d0 in
-    let step2 := if Bool.eqb large sweep then dneg step2 else step2 in
-    let cxp := ddiv (dmul (dmul step2 Rx) y1p) Ry in
-    let cyp := ddiv (dmul (dmul (dneg step2) Ry) x1p) Rx in
-    let cx := dadd (dsub (dmul cosphi cxp) (dmul sinphi cyp)) (ddiv (dadd x1 x2) k_two) in
-    let cy := dadd (dadd (dmul sinphi cxp) (dmul cosphi cyp)) (ddiv (dadd y1 y2) k_two) in
-    let ax := ddiv (dsub x1p cxp) Rx in
-    let ay := ddiv (dsub y1p cyp) Ry in
-    let bx := ddiv (dsub (dneg x1p) cxp) Rx in
-    let by_ := ddiv (dsub (dneg y1p) cyp) Ry in
+    let c := arc_center_gen A64 x1 y1 x2 y2 Rx0 Ry0 cosphi sinphi (Bool.eqb large sweep) in
+    let Rx := ac_rx c in let Ry := ac_ry c in
+    let ax := ddiv (dsub (ac_x1p c) (ac_cxp c)) Rx in
+    let ay := ddiv (dsub (ac_y1p c) (ac_cyp c)) Ry in
+    let bx := ddiv (dsub (dneg (ac_x1p c)) (ac_cxp c)) Rx in
+    let by_ := ddiv (dsub (dneg (ac_y1p c)) (ac_cyp c)) Ry in
     let theta1 := angle k_one d0 ax ay in
     let dtheta := angle ax ay bx by_ in
     let dtheta :=
@@ -98,7 +119,7 @@ Definition arc_params (x1 y1 : Z) (Rx0 Ry0 : Z) (rot : f32) (large sweep : bool)
     let n := match ftrunc F64 (fceil F64 (ddiv (dabs dtheta) k_segAngle)) with
              | Some i => if (0 <? i) && (i <? 1000) then i else 0
              | None => 0 end in
-    mkArcP n cx cy theta1 dtheta Rx Ry cosphi sinphi.
+    mkArcP n (ac_cx c) (ac_cy c) theta1 dtheta Rx Ry cosphi sinphi.
 
 (* AbsArcTo (the renderer is not disabled) *)
 Definition abs_arc (s : S) (rx ry rot : f32) (large sweep : bool) (x y : f32) : S :=
